@@ -91,7 +91,10 @@ def worker_main(args):
             if 'modes' in doc:
                 from vlib import envmodes
                 envmodes.FORCE[0] = set(doc['modes'])      # the process-wide modes the case ran under when it failed
-            if isinstance(rcase, dict) and rcase.get('kind') == 'hammer' and getattr(mod, 'HAMMER', None) is not None:
+            if isinstance(rcase, dict) and rcase.get('kind') == 'after-rejected' and getattr(mod, 'REJECTED_FUNCS', None):
+                from vlib import concurrent
+                concurrent.after_rejected_calls(ctx, mod.REJECTED_FUNCS(ctx), mod.HAMMER(ctx))
+            elif isinstance(rcase, dict) and rcase.get('kind') == 'hammer' and getattr(mod, 'HAMMER', None) is not None:
                 from vlib import concurrent
                 concurrent.hammer(ctx, mod.HAMMER(ctx), budget=3 * getattr(mod, 'HAMMER_BUDGET', 3.0))   # a concurrency witness is replayed by hammering again, longer
             else:
@@ -139,6 +142,11 @@ def worker_main(args):
             if not ctx.violation_count and getattr(mod, 'HAMMER', None) is not None and shard == 0:
                 from vlib import concurrent
                 concurrent.hammer(ctx, mod.HAMMER(ctx), budget=getattr(mod, 'HAMMER_BUDGET', 3.0))
+            if (not ctx.violation_count and getattr(mod, 'HAMMER', None) is not None
+                    and getattr(mod, 'REJECTED_FUNCS', None) is not None and shard == (1 % max(1, nshards))):
+                # the very last thing this worker does (a rejected call may leave the library unusable)
+                from vlib import concurrent
+                concurrent.after_rejected_calls(ctx, mod.REJECTED_FUNCS(ctx), mod.HAMMER(ctx))
     except BaseException as e:  # noqa
         tb = traceback.format_exc()
         if _from_repo(e.__traceback__, root):
